@@ -145,6 +145,53 @@ Example C09_example_reload :
     map fe_hash (lg_entries l') = [4%N; 2%N; 1%N; 3%N] /\ map fe_hash (lg_heads l') = [4%N; 3%N].
 Proof. eexists. vm_compute. repeat split. Qed.
 
+(* ------------------------------------------------------------------------------------------ *)
+(* C09 for every reachable log state.  The log model (Model/Log.v, Model/System.v) and the
+   invariant [linv] proved for every replica of every well-formed history (Proofs/SysProofs.v:
+   [sinv_run]) are connected to the stored-log hypotheses above by Proofs/BridgeProofs.v
+   ([bridge_log_wf]).  Remaining explicit hypotheses: [store_has] (every entry of the log is
+   retrievable under its hash: C17 + no faults), [refs_in_log] (skip references point into the
+   log), nothing excluded, no length limit.  [fentries_of l] / [fheads_of l] are the log's entries
+   and heads seen as blocks. *)
+From IpfsLog Require Import Model.System Proofs.Inv Proofs.SysProofs Proofs.BridgeProofs.
+
+Theorem C09_reload_reachable_state (ops : list op) (r : nat) (l : log) (cfg : config) :
+  wf ops -> nth_error (s_logs (run ops)) r = Some l ->
+  store_has cfg l -> refs_in_log l ->
+  (forall h, cf_excl cfg h = false) -> cf_length cfg < 0 ->
+  let same := same_log (fentries_of l) (fheads_of l) (l_id l) in
+  (* NewFromMultihash from the published manifest: any list with the head hashes ... *)
+  (forall mheads s, (forall h, In h mheads <-> In h (map fe_hash (fheads_of l))) ->
+     reachable_state cfg mheads s -> terminal s -> st_timedout s = false ->
+     same (load_multihash (l_id l) mheads (-1) (st_results s))) /\
+  (* ... which the heads written by ToJSONLog / ToMultihash are *)
+  (forall h, In h (json_heads l) <-> In h (map fe_hash (fheads_of l))) /\
+  (* NewFromJSON *)
+  (forall jheads s, (forall h, In h jheads <-> In h (map fe_hash (fheads_of l))) ->
+     reachable_state cfg jheads s -> terminal s -> st_timedout s = false ->
+     same (load_json (l_id l) (-1) (st_results s))) /\
+  (* NewFromEntryHash, single-headed state *)
+  (forall h s, fheads_of l = [h] ->
+     reachable_state cfg [fe_hash h] s -> terminal s -> st_timedout s = false ->
+     same (load_entryhash (l_id l) (-1) (st_results s))) /\
+  (* NewFromEntry from the head entries, non-empty log *)
+  (forall source s, (forall e, In e source <-> In e (fheads_of l)) -> l_entries l <> [] ->
+     reachable_state cfg (map fe_hash source) s -> terminal s -> st_timedout s = false ->
+     exists l', load_entry (-1) source (st_results s) = Some l' /\ same l').
+Proof.
+  intros W Hr Hst Hrefs Hex Hlen same.
+  destruct (replica_linv ops r l W Hr) as [UO I].
+  pose proof (bridge_log_wf (s_univ (run ops)) l cfg UO I Hrefs Hst Hex) as WF.
+  split; [|split; [|split; [|split]]].
+  - intros mheads s Hm Hs T Ht. exact (C09_reload_manifest cfg _ _ _ WF Hlen mheads s Hm Hs T Ht).
+  - intros h. exact (json_heads_iff l h).
+  - intros jheads s Hm Hs T Ht. exact (C09_reload_json cfg _ _ _ WF Hlen jheads s Hm Hs T Ht).
+  - intros h s Hh Hs T Ht. exact (C09_reload_entryhash cfg _ _ _ WF Hlen h s Hh Hs T Ht).
+  - intros source s Hsrc Hne Hs T Ht.
+    exact (C09_reload_entries cfg _ _ _ WF Hlen source s Hsrc
+             (fheads_nonempty (s_univ (run ops)) l UO I Hne) Hs T Ht).
+Qed.
+
 Print Assumptions C09_fetch_closure.
 Print Assumptions C09_reload_manifest.
 Print Assumptions C09_reload_json.
@@ -153,3 +200,4 @@ Print Assumptions C09_reload_entries.
 Print Assumptions C09_values.
 Print Assumptions C09_example_wf.
 Print Assumptions C09_example_reload.
+Print Assumptions C09_reload_reachable_state.
